@@ -65,7 +65,12 @@ RULE = ("case = (state kind pos/cplx/dens, n<=5, h, [a], parameter scale in {0.3
         "left out: `-self.c` wraps, finding candidate proposed/F_C08_unsigned_c), the constructor sizes num_visible / num_hidden / num_aux of the states and RBM modules "
         "additionally np.uint8 (keyword or positional; oracle: constructed architecture == requested), the normalisation handed to probability is the "
         "0-d tensor normalization() returned / a float / a np.float64 (keyword or positional), `expand` of rho(space, space) and `include_extras` of "
-        "rotate_psi_inner_prod / rotate_rho_probs are flag objects (keyword or positional); a case without `aseed` replays with plain ints / bools by keyword")
+        "rotate_psi_inner_prod / rotate_rho_probs are flag objects (keyword or positional); a case without `aseed` replays with plain ints / bools by keyword; "
+        "ELEMENT TYPE OF THE BATCH (final pass): every case's 0/1 batch is also applied, in the case's memory layout, as float32 / float16 / int64 / int32 / int16 / int8 / uint8 / bool "
+        "to all five observables (c = 1..n, both boundaries); where the clean code accepts the type (dtype_verdict: NeighbourInteraction all; SigmaZ floating types; SigmaX / SigmaY on "
+        "wavefunctions all signed integer and floating types) the values must be those of the float64 batch and of the model up to the precision of the result's type, one real number per "
+        "sample (B reals; container / precision not constrained), batch bytes unchanged - property level; refused types and the uint8 batch of SigmaX / SigmaY "
+        "(observation proposed/O_C08_uint8_flip) are informational counters")
 
 # forms of the interaction distance `c` the CLEAN code handles (probed: keyword, positional, reassigned attribute; c = 0..n+2, both boundary
 # conditions): everything in qc.INT_FORMS except numpy UNSIGNED scalars.  `NeighbourInteraction(c=np.uint8(k))`: the open chain computes
@@ -350,7 +355,7 @@ def one_case(ctx, kind, n, h, a, scale, am, ph, samples, full, layout="contig", 
     except Exception as e:  # noqa: BLE001
         imp_err = type(e).__name__
 
-    # ---------------- every apply returns one float64 per sample and does not touch the sample tensor
+    # ---------------- every apply returns one real number per sample and does not touch the sample tensor
     for key, (vals, shape_ok, unchanged, _after) in impl.items():
         if key[0] == "nb" and not 1 <= key[2] <= n:
             # interaction distances outside the property's quantifier (c = 1..n): c = 0 and c = n + 1 are still APPLIED (a crash of the harness
